@@ -38,11 +38,23 @@ type cfg struct {
 	// refused) a configuration whose quota file is broken and then validated the good one -
 	// what a refused configuration update followed by its roll-back does
 	AfterRejectedDryRun bool
+	// UnreferencedSibling: a second, fixed-window quota R with the SAME filter URL that no
+	// Limiter references (its system flows count requests)
+	UnreferencedSibling bool
+	// NarrowQuota: the concurrent quota's own filter (h.com/b/*) does not cover the traffic than the filter of
+	// the flow whose Limiter uses it (h.com/*)
+	NarrowQuota bool
 }
 
 func (c cfg) name() string {
 	if c.AfterRejectedDryRun {
 		return fmt.Sprintf("max=%d after a rejected dry run", c.Max)
+	}
+	if c.UnreferencedSibling {
+		return fmt.Sprintf("max=%d + unreferenced quota on the same URL", c.Max)
+	}
+	if c.NarrowQuota {
+		return fmt.Sprintf("max=%d, quota filter narrower than the flow's", c.Max)
 	}
 	if c.TwoQuotas && c.RateFirst {
 		return fmt.Sprintf("rate-quota+max=%d", c.Max)
@@ -55,7 +67,7 @@ func (c cfg) name() string {
 
 func quotaYAML(c cfg) string {
 	extra := ""
-	if c.TwoQuotas {
+	if c.TwoQuotas || c.UnreferencedSibling {
 		extra = `  - id: R
     filter:
       url: h.com/*
@@ -76,6 +88,14 @@ func quotaYAML(c cfg) string {
         request_expiration_sec: %d
         gc_interval_sec: %d
 `, c.Max, int(expiry/time.Second), int(gcInt/time.Second)) + extra
+}
+
+func quotaFor(c cfg) string {
+	q := quotaYAML(c)
+	if c.NarrowQuota {
+		q = strings.Replace(q, "      url: h.com/*\n", "      url: h.com/b/*\n", 1)
+	}
+	return q
 }
 
 func flowFor(c cfg) string {
@@ -278,7 +298,7 @@ func newModel(c cfg) *model {
 			}
 		}
 	}
-	s, root, err := eng.NewStream(eng.Files{Flows: map[string]string{"f.yaml": flowFor(c)}, Quotas: map[string]string{"q.yaml": quotaYAML(c)}})
+	s, root, err := eng.NewStream(eng.Files{Flows: map[string]string{"f.yaml": flowFor(c)}, Quotas: map[string]string{"q.yaml": quotaFor(c)}})
 	if err != nil {
 		panic("engine did not load: " + err.Error())
 	}
@@ -409,7 +429,7 @@ var _ = os.Getenv
 func TestCheck(t *testing.T) {
 	r := mc.New("C02", "model_checking")
 	depth := mc.Pick(r, 6, 7)
-	cs := []cfg{{Max: 1}, {Max: 2}, {Max: 1, TwoQuotas: true}, {Max: 1, TwoQuotas: true, RateFirst: true}, {Max: 1, AfterRejectedDryRun: true}}
+	cs := []cfg{{Max: 1}, {Max: 2}, {Max: 1, TwoQuotas: true}, {Max: 1, TwoQuotas: true, RateFirst: true}, {Max: 1, AfterRejectedDryRun: true}, {Max: 1, UnreferencedSibling: true}, {Max: 1, NarrowQuota: true}}
 	if f := mc.ReplayFile(); f != "" {
 		var rp mc.BFSReplay
 		if err := mc.LoadReplay(f, &rp); err != nil || rp.Model == "" {
@@ -450,6 +470,13 @@ func TestCheck(t *testing.T) {
 			}
 			st, tr := mc.BFS(r, mc.BFSOpts{Name: c.name(), NEvents: len(alpha), MaxDepth: depth, Prefix: []int{first}, CheckPrefix: true,
 				EvName: func(e int) string { return alpha[e].String() },
+				Classify: func(fail string, _ []int) string {
+					clause := strings.SplitN(fail, " ", 2)[0]
+					if c.NarrowQuota {
+						clause += ":quota-filter-does-not-cover-the-flow"
+					}
+					return clause
+				},
 				Run: func(body func(mc.Model)) {
 					synctest.Test(t, func(t *testing.T) {
 						m := newModel(c)
